@@ -52,11 +52,12 @@ Section Load.
   Variable print64 : F64 -> bytes.
   Variable parse32 : bytes -> F32.
   Variable parse64 : bytes -> F64.
+  Variables lv fv : bool.          (* Model.lit_by_value, Model.fmt_by_value *)
 
   Notation prim := (prim F32 F64).
   Notation json := (json F32 F64).
-  Notation prim_load := (prim_load F32 F64 parse32 parse64).
-  Notation load := (load F32 F64 parse32 parse64).
+  Notation prim_load := (prim_load F32 F64 parse32 parse64 lv fv).
+  Notation load := (load F32 F64 parse32 parse64 lv fv).
   Notation prim_toString := (prim_toString F32 F64 print32 print64).
 
   Lemma prim_load_S : forall f incl s,
@@ -76,7 +77,9 @@ Section Load.
             | Some None => Ok (PNone, []) s
             | Some (Some (k, x, r)) =>
                 match sfx_loop F32 F64 (prim_load f true) true r (Sfx O false false false) with
-                | Ok st r' => let k' := suffix_kind st in Ok (PInt k' (cast k' x), consumed s r') r'
+                | Ok st r' =>
+                    let k' := if fv then fmt_kind negative st (cast KU64 x) else suffix_kind st in
+                    Ok (PInt k' (cast k' x), consumed s r') r'
                 | Err => Err | Oob => Oob | NoFuel => NoFuel
                 end
             | None =>
@@ -85,7 +88,9 @@ Section Load.
                 | O => Ok (PNone, []) s
                 | _ =>
                     match sfx_loop F32 F64 (prim_load f true) false r (Sfx O false decimal false) with
-                    | Ok st r' => pl_value F32 F64 parse32 parse64 s st r'
+                    | Ok st r' =>
+                        pl_value F32 F64 parse32 parse64 lv negative
+                          (match s1 with c1 :: _ => (c1 =? 48)%N | [] => false end) s st r'
                     | Err => Err | Oob => Oob | NoFuel => NoFuel
                     end
                 end
@@ -156,7 +161,7 @@ Section Load.
       unfold pl_value. cbn [sx_dec sx_flt orb].
       replace (es :: d :: t ++ r) with ((es :: d :: t) ++ r) by reflexivity.
       rewrite consumed_app.
-      destruct (parse_int_exponent es (d :: t) Hes Hex Hne) as [z Hz]. rewrite Hz.
+      destruct (parse_int_exponent lv es (d :: t) Hes Hex Hne) as [z Hz]. rewrite Hz.
       eexists _, _; split; reflexivity.
     - cbn [sfx_loop]. change (102 =? 0)%N with false. change (upper 102) with 70%N.
       change (70 =? 76)%N with false. change (70 =? 85)%N with false. cbn [negb].
@@ -226,22 +231,57 @@ Section Load.
     destruct k; cbn in H1, H2; lia.
   Qed.
 
+  (* |v| as primitive::load computes it from the 64-bit value *)
+  Lemma magnitude_abs : forall v, Z.abs v < 2 ^ 64 ->
+    (if v <? 0 then wrap64 (- wrap64 v) else wrap64 v) = Z.abs v.
+  Proof.
+    intros v H. unfold wrap64, wrap_u. change (2 ^ 64) with 18446744073709551616 in *.
+    destruct (Z.ltb_spec v 0); lia.
+  Qed.
+
+  Lemma value_kind_printed : forall k v negative octal,
+    k <> KBool -> in_kind k v = true -> negative = (v <? 0) -> (v <> 0 -> octal = false) ->
+    let st := Sfx (if is_long k then 1 else 0) false false false in
+    let k' := value_kind negative octal st (wrap64 v) in
+    PInt k' (cast k' (wrap64 v)) = reparsed_prim F32 F64 true (PInt k v).
+  Proof.
+    intros k v negative octal Hk Hin Hneg Hoct. cbv zeta.
+    pose proof (magnitude_abs v (in_kind_abs k v Hin)) as Hmag.
+    unfold value_kind. cbn [sx_longs sx_uns]. rewrite Hneg, Hmag.
+    unfold in_kind in Hin. apply andb_true_iff in Hin as [H1 H2]. apply Z.leb_le in H1, H2.
+    assert (Hcast32 : forall z, Z.abs z <= 2147483647 -> cast KI32 (wrap64 z) = cast KI32 z).
+    { intros z Hz. unfold cast, wrap64, wrap_s, wrap_u. change (2 ^ 64) with 18446744073709551616.
+      change (2 ^ 32) with 4294967296. change (2 ^ (32 - 1)) with 2147483648. lia. }
+    assert (Hcast64 : forall z, cast KI64 (wrap64 z) = cast KI64 z).
+    { intros z. unfold cast, wrap64, wrap_s, wrap_u. change (2 ^ 64) with 18446744073709551616.
+      change (2 ^ (64 - 1)) with 9223372036854775808. lia. }
+    assert (Ho : Z.abs v <= 2147483647 \/ octal = false).
+    { destruct (Z.eq_dec v 0) as [->|Hv]; [left; cbn; lia | right; now apply Hoct]. }
+    destruct k; try congruence; cbn [is_long reparsed_prim andb negb orb] ; cbn in H1, H2.
+    all: try (destruct (Z.leb_spec (Z.abs v) 2147483647); cbn [andb negb orb];
+              [now rewrite Hcast32 |];
+              destruct Ho as [Ho| ->]; [lia|]; rewrite ?andb_false_r; cbn [andb negb orb];
+              destruct (Z.leb_spec (Z.abs v) 9223372036854775807); [now rewrite Hcast64 | lia]).
+    all: destruct (Z.leb_spec (Z.abs v) 9223372036854775807); cbn [andb negb orb]; [now rewrite Hcast64|];
+         destruct Ho as [Ho| ->]; [lia|]; now rewrite Hcast64.
+  Qed.
+
   Lemma prim_load_int : forall f k v r,
     k <> KBool -> in_kind k v = true -> stopr r ->
     prim_load (S f) true (prim_toString (PInt k v) ++ r) =
-      Ok (reparsed_prim F32 F64 (PInt k v), prim_toString (PInt k v)) r.
+      Ok (reparsed_prim F32 F64 lv (PInt k v), prim_toString (PInt k v)) r.
   Proof.
     intros f k v r Hk Hin Hr.
     set (sfx := if is_long k then [76%N] else @nil N).
     assert (Htxt : prim_toString (PInt k v) = dec_of_Z v ++ sfx) by (destruct k; try reflexivity; congruence).
-    assert (Hrep : reparsed_prim F32 F64 (PInt k v) =
+    assert (Hrep : reparsed_prim F32 F64 false (PInt k v) =
                    if is_long k then PInt KI64 (cast KI64 v) else PInt KI32 (cast KI32 v))
       by (destruct k; try reflexivity; congruence).
-    rewrite Htxt, Hrep.
+    rewrite Htxt.
     assert (Hsfx : sfx = [] \/ sfx = [76%N]) by (subst sfx; destruct (is_long k); auto).
     destruct (dec_of_Z_spec v) as (sg & ds & E & Hd & Hv & Hsg & H0 & Hnz).
     pose proof (in_kind_abs k v Hin) as Hlt.
-    destruct (parse_int_dec sg ds sfx v Hd Hv Hlt Hsg H0 Hnz Hsfx) as (value_ & Hpi & Hc32 & Hc64).
+    destruct (parse_int_dec lv sg ds sfx v Hd Hv Hlt Hsg H0 Hnz Hsfx) as (value_ & Hpi & Hold & Hnew).
     rewrite E. destruct Hnz as (d & t & -> & Hnz).
     assert (Hdd : is_digit d = true).
     { unfold digits in Hd; cbn [forallb] in Hd; now apply andb_true_iff in Hd as [? _]. }
@@ -263,6 +303,16 @@ Section Load.
         change (76 =? 76)%N with true. cbv iota. cbn [sx_longs sx_uns sx_dec sx_flt].
         now apply sfx_loop_stop.
       - now apply sfx_loop_stop. }
+    (* the value and its type, for both variants of primitive::load *)
+    assert (Hres : forall negative octal, negative = (v <? 0) -> (v <> 0 -> octal = false) ->
+              (let k' := if lv then value_kind negative octal (Sfx (if is_long k then 1 else 0) false false false) value_
+                         else suffix_kind (Sfx (if is_long k then 1 else 0) false false false) in
+               PInt k' (cast k' value_)) = reparsed_prim F32 F64 lv (PInt k v)).
+    { intros negative octal Hn Ho. cbv zeta. destruct lv.
+      - rewrite (Hnew eq_refl). now apply value_kind_printed.
+      - destruct (Hold eq_refl) as [Hc32 Hc64]. rewrite Hrep. unfold suffix_kind. cbn [sx_longs sx_uns].
+        subst sfx. destruct (is_long k); [now rewrite Hc64 | now rewrite Hc32]. }
+    assert (Hoct : v <> 0 -> (d =? 48)%N = false) by (intros Hv0; apply N.eqb_neq; now apply Hnz).
     rewrite prim_load_S. rewrite <- !app_assoc.
     destruct Hsg as [[Hpos ->]|[Hneg ->]]; cbn [app].
     - rewrite (starts_with_first _ d 116%N _ H116), (starts_with_first _ d 102%N _ H102).
@@ -271,8 +321,8 @@ Section Load.
       rewrite Hfmt, Hscan. cbn [length]. rewrite Hloop.
       unfold pl_value. cbn [sx_dec sx_flt orb].
       rewrite app_assoc, consumed_app. cbn [app] in Hpi. cbn [app]. rewrite Hpi.
-      unfold suffix_kind. cbn [sx_longs sx_uns].
-      subst sfx. destruct (is_long k); [now rewrite Hc64 | now rewrite Hc32].
+      f_equal. f_equal. apply (Hres false (d =? 48)%N); [|exact Hoct].
+      symmetry. apply Z.ltb_ge. exact Hpos.
     - cbv zeta. cbn [starts_with N.eqb Pos.eqb andb orb negb].
       rewrite (skip_ws_stop d _ (is_digit_not_ws d Hdd)).
       change (d :: t ++ sfx ++ r) with ((d :: t) ++ sfx ++ r).
@@ -280,8 +330,8 @@ Section Load.
       unfold pl_value. cbn [sx_dec sx_flt orb].
       change (45%N :: (d :: t) ++ sfx ++ r) with (([45%N] ++ (d :: t)) ++ sfx ++ r).
       rewrite app_assoc, consumed_app. rewrite <- app_assoc. rewrite Hpi.
-      unfold suffix_kind. cbn [sx_longs sx_uns].
-      subst sfx. destruct (is_long k); [now rewrite Hc64 | now rewrite Hc32].
+      f_equal. f_equal. apply (Hres true (d =? 48)%N); [|exact Hoct].
+      symmetry. apply Z.ltb_lt. exact Hneg.
   Qed.
 
 End Load.
